@@ -317,7 +317,9 @@ where
                 }
             },
         };
-        if transfer.more {
+        // An aborted transfer ends the delivery whatever its `more` flag says: what follows on the
+        // link is not its continuation.
+        if transfer.more && !transfer.aborted {
             let _ = self
                 .txn_manager
                 .incomplete_posts
